@@ -527,6 +527,16 @@ def concrete_violation():
         pd_ = np.asarray(m.pdf(g), dtype=float)
         if np.any(pd_ < 0) or not np.allclose(np.asarray(m.log_probability_density(g[10:30]), dtype=float), np.log(pd_[10:30]), rtol=1e-8, atol=1e-10):
             return True, f'{fam}: pdf negative or log_probability_density != log(pdf)'
+    # vectors mixing boundary probabilities (-> -inf / +inf) with interior ones: every lane is solved as if it were alone
+    kv = GaussianKDE()
+    kv.fit(x[:80])
+    for meth in ('chandrupatla', 'bisect'):
+        for qv in ([0.0, 0.2, 0.5, 0.8], [0.3, 1.0, 0.6, 0.9], [1.0, 0.0, 0.4], [0.7, 0.1]):
+            qv = np.array(qv)
+            got = np.asarray(kv.percent_point(qv, method=meth), dtype=float)
+            want = np.array([float(np.asarray(kv.percent_point(np.array([q_]), method=meth))[0]) for q_ in qv])
+            if got.shape != want.shape or not np.allclose(got, want, rtol=1e-7, atol=1e-7, equal_nan=True):
+                return True, f'GaussianKDE.percent_point({qv.tolist()}, method={meth!r}) = {got.tolist()}, lane by lane {want.tolist()}'
     # quantiles on a small data scale, with either root finder
     ks_ = GaussianKDE()
     ks_.fit(1e-9 * np.array([0.0, 1.0, 2.0, 3.0, 4.0, 7.0]))
